@@ -75,7 +75,13 @@ pub fn utf8(max: usize) -> BoxedStrategy<Vec<u8>> {
             out
         });
     prop_oneof![10 => small, 8 => ascii, 1 => bnd]
-        .prop_filter("fits", move |b| b.len() <= max)
+        .prop_map(move |mut b| {
+            // construction, not rejection: cut at a character boundary
+            while b.len() > max || std::str::from_utf8(&b).is_err() {
+                b.pop();
+            }
+            b
+        })
         .boxed()
 }
 
@@ -108,7 +114,12 @@ pub fn octets(max: usize) -> BoxedStrategy<Vec<u8>> {
         }
         v
     });
-    prop_oneof![6 => mixed, 4 => utf8(max), 3 => raw, 1 => bnd].prop_filter("fits", move |b| b.len() <= max).boxed()
+    prop_oneof![6 => mixed, 4 => utf8(max), 3 => raw, 1 => bnd]
+        .prop_map(move |mut b| {
+            b.truncate(max);
+            b
+        })
+        .boxed()
 }
 
 // ---------------------------------------------------------------------------------------------
@@ -135,7 +146,15 @@ pub fn with_lang(text: impl Fn(usize) -> BoxedStrategy<Vec<u8>> + 'static) -> Bo
         let t = vec![b't'; tot - l];
         (lang, t)
     });
-    prop_oneof![30 => normal, 1 => full].prop_filter("with-language fits 16 bits", |(l, t)| l.len() + t.len() + 4 <= 65535).boxed()
+    prop_oneof![30 => normal, 1 => full]
+        .prop_map(|(l, mut t)| {
+            let room = 65535usize.saturating_sub(4 + l.len());
+            while t.len() > room {
+                t.pop();
+            }
+            (l, t)
+        })
+        .boxed()
 }
 
 pub fn m_leaf(allow_member_name: bool) -> BoxedStrategy<CValue> {
@@ -249,7 +268,7 @@ pub fn attr_name() -> BoxedStrategy<Vec<u8>> {
         6 => vec(prop_oneof![(b'a'..=b'z'), Just(b'-')], 1..16),
         3 => utf8(65535),
     ]
-    .prop_filter("attribute names are non-empty", |n| !n.is_empty())
+    .prop_map(|n| if n.is_empty() { b"n".to_vec() } else { n })
     .boxed()
 }
 
@@ -361,7 +380,7 @@ fn dedup_names(ms: Vec<WAttr>) -> Vec<WAttr> {
 
 /// attribute names as a peer may send them: mostly valid, sometimes not valid UTF-8
 pub fn attr_name_wire() -> BoxedStrategy<Vec<u8>> {
-    prop_oneof![19 => attr_name(), 1 => octets(24).prop_filter("non-empty", |n| !n.is_empty())].boxed()
+    prop_oneof![19 => attr_name(), 1 => octets(24).prop_map(|n| if n.is_empty() { vec![0xe9] } else { n })].boxed()
 }
 
 pub fn w_val(depth: u32) -> BoxedStrategy<WVal> {
